@@ -163,6 +163,35 @@ def is_plain(v):
     return False
 
 
+def aliased_variants(v, limit=12):
+    """copies of v in which one container member is replaced by THE SAME OBJECT as another member (at any depth): the value
+    differs from v (the two members differed), but one object now sits at two positions"""
+    import copy
+    out = []
+
+    def rec(x, rebuild):
+        if len(out) >= limit:
+            return
+        items = list(x.items()) if isinstance(x, dict) else (list(enumerate(x)) if isinstance(x, list) else [])
+        conts = [(k, m) for k, m in items if isinstance(m, (list, dict))]
+        for k1, m1 in conts:
+            for k2, m2 in conts:
+                if k1 != k2 and type(m1) is type(m2) and m1 != m2:
+                    c = copy.deepcopy(x)
+                    c[k2] = c[k1]                   # the same object twice
+                    out.append(rebuild(c))
+                    if len(out) >= limit:
+                        return
+        for k, m in conts:
+            def rb(c, k=k, x=x):
+                y = copy.deepcopy(x)
+                y[k] = c
+                return rebuild(y)
+            rec(m, rb)
+    rec(v, lambda c: c)
+    return out
+
+
 def has_placeholder(v):
     """`...` anywhere (value or key), or the DSL's `optional(k)` marker as a key: not a plain value in the sense of C04/C05"""
     if v is Ellipsis:
